@@ -943,6 +943,26 @@ impl DhtCoreEngine {
         })
     }
 
+    /// Store a value in this node's own store, unconditionally.
+    ///
+    /// `store()` decides by closeness whether the local node is one of the
+    /// replicas and only then keeps a copy. A node that has been *asked* to hold
+    /// a value - by a PUT request, or by its own `put` - must keep it.
+    ///
+    /// # Errors
+    /// Returns an error if the value exceeds `MAX_DHT_VALUE_SIZE` (512 bytes).
+    pub async fn store_local(&self, key: &DhtKey, value: Vec<u8>) -> Result<()> {
+        if value.len() > MAX_DHT_VALUE_SIZE {
+            return Err(anyhow::anyhow!(
+                "Value too large: {} bytes (max: {} bytes)",
+                value.len(),
+                MAX_DHT_VALUE_SIZE
+            ));
+        }
+        self.data_store.write().await.put(key.clone(), value);
+        Ok(())
+    }
+
     /// Retrieve data from the DHT
     ///
     /// First checks local storage. If not found locally and a transport is configured,
